@@ -119,6 +119,19 @@ impl Data {
         v
     }
 
+    /// Counts and the first `cap` items of each type (large data sets).
+    pub fn render_bounded(&self, cap: usize) -> serde_json::Value {
+        let cut = |s: String| if s.len() > 200 { format!("{}...", s.chars().take(200).collect::<String>()) } else { s };
+        serde_json::json!({
+            "number_of_origins": self.origins.len(),
+            "number_of_router_keys": self.keys.len(),
+            "number_of_aspas": self.aspas.len(),
+            "first_origins": self.origins.iter().take(cap).map(render_origin).collect::<Vec<_>>(),
+            "first_router_keys": self.keys.iter().take(cap).map(render_key).collect::<Vec<_>>(),
+            "first_aspas": self.aspas.iter().take(cap).map(|(c, p)| cut(format!("AS{} => [{} providers] {:?}", c, p.len(), &p[..p.len().min(12)]))).collect::<Vec<_>>(),
+        })
+    }
+
     pub fn render(&self) -> serde_json::Value {
         serde_json::json!({
             "origins": self.origins.iter().map(render_origin).collect::<Vec<_>>(),
@@ -308,6 +321,9 @@ struct Inner {
     self_check_failures: Vec<String>,
     /// released when the server next asks for `full` or an available `diff`
     armed: Option<Arc<tokio::sync::Notify>>,
+    /// the last difference handed to the server during the current step, in
+    /// the order it was presented
+    last_diff: Option<Arc<Vec<(Payload, Action)>>>,
 }
 
 /// The harness' payload source. Cloned into every server connection.
@@ -346,6 +362,7 @@ impl Source {
                 step_updates_during_response: 0,
                 self_check_failures: Vec::new(),
                 armed: None,
+                last_diff: None,
             })),
             active: Arc::new(AtomicUsize::new(0)),
         }
@@ -427,6 +444,13 @@ impl Source {
         g.step_diff_none = 0;
         g.step_full = 0;
         g.step_updates_during_response = 0;
+        g.last_diff = None;
+    }
+
+    /// The last difference the server was handed since `begin_step`, in the
+    /// order it was presented.
+    pub fn last_diff(&self) -> Option<Arc<Vec<(Payload, Action)>>> {
+        self.inner.lock().unwrap().last_diff.clone()
     }
 
     pub fn step_obs(&self) -> StepObs {
@@ -475,7 +499,7 @@ impl PayloadSet for FullSet {
 }
 
 pub struct DiffIter {
-    items: Vec<(Payload, Action)>,
+    items: Arc<Vec<(Payload, Action)>>,
     pos: usize,
     _guard: Guard,
 }
@@ -564,10 +588,12 @@ impl PayloadSource for Source {
         if d != cur.data {
             g.self_check_failures.push(format!("diff {}:{} -> {}:{} does not lead to the current snapshot", session, serial, cur.session, cur.serial));
         }
-        let items = list
-            .iter()
-            .map(|(a, i)| (to_lib(i), if *a { Action::Announce } else { Action::Withdraw }))
-            .collect();
+        let items: Arc<Vec<(Payload, Action)>> = Arc::new(
+            list.iter()
+                .map(|(a, i)| (to_lib(i), if *a { Action::Announce } else { Action::Withdraw }))
+                .collect(),
+        );
+        g.last_diff = Some(items.clone());
         Some((state_of(&cur), DiffIter { items, pos: 0, _guard: Guard::new(&self.active) }))
     }
 
